@@ -430,8 +430,8 @@ func allocReplay(which string) func(raw json.RawMessage) string {
 func init() {
 	rule := "explicit-state BFS over histories of alloc(p,n)/release(p,n)/releasePeer(p), p in {A,B,C}, n in {1,2,3}, 5 limit configurations; successor = replay of the history on a fresh real allocator.Allocator plus one operation; states merged on a canonical dump of the allocator's private state (peer table, pending FIFOs with rank-normalised sequence numbers, priority-queue layout); a class is a distinct (granted vector, #waiting) observation"
 	assume := []string{"reference model transcribes the C13/C14 statements (heads-only reading of 'ahead of it')", "canonical key covers every private field of Allocator except its lock", "sequential calls; the concurrent pass is separate"}
-	core.Register(&core.Prop{ID: "C13", Level: "model_checking", Rule: rule, Assumptions: assume,
+	core.Register(&core.Prop{ID: "C13", Level: "model_checking", Rule: rule, Assumptions: assume, NoQuickPhase: true,
 		Run: func(c *core.Ctx) { runAlloc(c, "C13") }, Replay: allocReplay("C13"), QuickBudget: 240, ThoroughBudget: 1500})
-	core.Register(&core.Prop{ID: "C14", Level: "model_checking", Rule: rule, Assumptions: assume,
+	core.Register(&core.Prop{ID: "C14", Level: "model_checking", Rule: rule, Assumptions: assume, NoQuickPhase: true,
 		Run: func(c *core.Ctx) { runAlloc(c, "C14") }, Replay: allocReplay("C14"), QuickBudget: 240, ThoroughBudget: 1500})
 }
